@@ -1277,4 +1277,603 @@ theorem read_eq (c t : Nat) (msg : Bytes) (cur len : Nat) : read c t msg cur len
   simp only [List.contains_cons, List.contains_nil, Bool.or_false, beq_iff_eq, Bool.and_true, Bool.and_eq_true, Bool.or_eq_true]
   dispatch_cases t c with (simp_all [readHandler, readFmt, validateFmt])
 
+/-! ### character-strings -/
+
+/-- wire length of the `<character-string>` at the start of a list -/
+def csLen? : List UInt8 → Option Nat
+  | [] => none
+  | l :: rest => if l.toNat ≤ rest.length then some (1 + l.toNat) else none
+
+theorem vcs_eq (b : Bytes) : validateCharacterString b =
+    match csLen? b.toList with
+    | some n => .ok n
+    | none => .err .Other := by
+  unfold validateCharacterString
+  cases hb : b.toList with
+  | nil =>
+    have : b.size = 0 := by have := congrArg List.length hb; simpa using this
+    simp [csLen?, this]
+  | cons l rest =>
+    have hs : b.size = rest.length + 1 := by have := congrArg List.length hb; simpa using this
+    have h0 : 0 < b.size := by omega
+    have hl : b[0] = l := by
+      have := List.getElem_of_eq hb (by simp; omega : 0 < b.toList.length)
+      simpa using this
+    simp only [h0, dite_true, hl, csLen?, hs]
+    by_cases h : l.toNat ≤ rest.length
+    · have : 1 + l.toNat ≤ rest.length + 1 := by omega
+      simp [h, this]
+    · have : ¬ 1 + l.toNat ≤ rest.length + 1 := by omega
+      simp [h, this]
+
+theorem csLen?_some (A : List UInt8) (n : Nat) :
+    csLen? A = some n ↔ ∃ s rest, A = s ++ rest ∧ CharStr s ∧ s.length = n := by
+  constructor
+  · intro h
+    cases A with
+    | nil => simp [csLen?] at h
+    | cons l rest =>
+      simp only [csLen?] at h
+      split at h
+      · rename_i hl
+        cases h
+        refine ⟨l :: rest.take l.toNat, rest.drop l.toNat, by simp, ⟨l, rest.take l.toNat, rfl, by simp; omega⟩, by simp; omega⟩
+      · cases h
+  · rintro ⟨s, rest, rfl, ⟨l, body, rfl, hb⟩, hn⟩
+    simp only [List.cons_append, csLen?, List.length_append]
+    have : l.toNat ≤ body.length + rest.length := by omega
+    simp [this] at hn ⊢
+    omega
+
+theorem csLen?_pos (A : List UInt8) (n : Nat) (h : csLen? A = some n) : 0 < n ∧ n ≤ A.length := by
+  cases A with
+  | nil => simp [csLen?] at h
+  | cons l rest =>
+    simp only [csLen?] at h
+    split at h
+    · cases h; simp; omega
+    · cases h
+
+theorem charStr_prefix_unique {s s' x y : List UInt8} (h : CharStr s) (h' : CharStr s') (e : s ++ x = s' ++ y) :
+    s = s' := by
+  obtain ⟨l, body, rfl, hb⟩ := h
+  obtain ⟨l', body', rfl, hb'⟩ := h'
+  simp only [List.cons_append, List.cons.injEq] at e
+  obtain ⟨rfl, e2⟩ := e
+  have := (List.append_inj e2 (by omega)).1
+  rw [this]
+
+theorem validateAsHinfo_iff (r : Bytes) :
+    validateAsHinfo r = .ok () ↔ ∃ a b, CharStr a ∧ CharStr b ∧ r.toList = a ++ b := by
+  unfold validateAsHinfo
+  rw [vcs_eq]
+  cases h1 : csLen? r.toList with
+  | none =>
+    simp only [Out.bind_err, reduceCtorEq, false_iff]
+    rintro ⟨a, b, ha, hb, e⟩
+    have := (csLen?_some r.toList a.length).mpr ⟨a, b, e, ha, rfl⟩
+    rw [h1] at this; cases this
+  | some n =>
+    obtain ⟨hn0, hn⟩ := csLen?_pos _ _ h1
+    simp only [Array.length_toList] at hn
+    simp only [Out.bind_ok, sliceFrom_ok r n hn]
+    rw [vcs_eq, toList_extract_from]
+    obtain ⟨s, rest, hr, hs, hsl⟩ := (csLen?_some _ _).mp h1
+    have hrest : r.toList.drop n = rest := by rw [hr, ← hsl]; simp
+    rw [hrest]
+    have hsz : r.size = n + rest.length := by
+      have := congrArg List.length hr; simp at this; omega
+    cases h2 : csLen? rest with
+    | none =>
+      simp only [Out.bind_err, reduceCtorEq, false_iff]
+      rintro ⟨a, b, ha, hb, e⟩
+      rw [hr] at e
+      have := charStr_prefix_unique hs ha e
+      subst this
+      have e' := List.append_cancel_left e
+      have := (csLen?_some rest b.length).mpr ⟨b, [], by simp [e'], hb, rfl⟩
+      rw [h2] at this; cases this
+    | some m =>
+      obtain ⟨s2, rest2, hr2, hs2, hsl2⟩ := (csLen?_some _ _).mp h2
+      simp only [Out.bind_ok]
+      by_cases hsize : r.size = n + m
+      · rw [if_pos hsize]
+        simp only [true_iff]
+        have : rest2 = [] := by
+          apply List.eq_nil_of_length_eq_zero
+          have := congrArg List.length hr2; simp at this; omega
+        subst this
+        exact ⟨s, s2, hs, hs2, by rw [hr, hr2]; simp⟩
+      · rw [if_neg hsize]
+        simp only [reduceCtorEq, false_iff]
+        rintro ⟨a, b, ha, hb, e⟩
+        rw [hr] at e
+        have := charStr_prefix_unique hs ha e
+        subst this
+        have e' := List.append_cancel_left e
+        have := (csLen?_some rest b.length).mpr ⟨b, [], by simp [e'], hb, rfl⟩
+        rw [h2] at this; cases this
+        apply hsize
+        rw [hsz, e']
+
+
+
+theorem vcs_ok_iff (b : Bytes) (n : Nat) : validateCharacterString b = .ok n ↔ csLen? b.toList = some n := by
+  rw [vcs_eq]; cases csLen? b.toList <;> simp
+
+theorem vcs_no_panic (b : Bytes) : validateCharacterString b ≠ .panic := by
+  rw [vcs_eq]; cases csLen? b.toList <;> simp
+
+theorem vcs_err_iff (b : Bytes) (e : RErr) : validateCharacterString b = .err e → csLen? b.toList = none := by
+  rw [vcs_eq]; cases csLen? b.toList <;> simp
+
+/-- a non-empty list that is a concatenation of character-strings starts with one -/
+theorem flatten_head {P : List UInt8 → Prop} (hpos : ∀ s, P s → 0 < s.length)
+    {A : List UInt8} {ss : List (List UInt8)} (hA : A ≠ []) (hss : ∀ s ∈ ss, P s) (e : A = ss.flatten) :
+    ∃ s ss', ss = s :: ss' ∧ P s ∧ A = s ++ ss'.flatten := by
+  cases ss with
+  | nil => simp at e; exact absurd e hA
+  | cons s ss' => exact ⟨s, ss', rfl, hss s (by simp), by simpa using e⟩
+
+theorem charStr_pos (s : List UInt8) (h : CharStr s) : 0 < s.length := by
+  obtain ⟨l, body, rfl, _⟩ := h; simp
+
+theorem txtLoop_spec (r : Bytes) (off : Nat) (hoff : off ≤ r.size) :
+    txtLoop r off ≠ .panic ∧
+    (txtLoop r off = .ok () ↔ ∃ ss : List (List UInt8), (∀ s ∈ ss, CharStr s) ∧ r.toList.drop off = ss.flatten) := by
+  fun_induction txtLoop r off with
+  | case1 x hx hv =>
+    have := csLen?_pos _ _ ((vcs_ok_iff _ _).mp hv)
+    omega
+  | case2 x hx n hv hn ih =>
+    have hc := (vcs_ok_iff _ _).mp hv
+    rw [toList_extract_from] at hc
+    obtain ⟨_, hle⟩ := csLen?_pos _ _ hc
+    simp only [List.length_drop, Array.length_toList] at hle
+    obtain ⟨ih1, ih2⟩ := ih (by omega)
+    refine ⟨ih1, ?_⟩
+    rw [ih2]
+    obtain ⟨s, rest, hr, hs, hsl⟩ := (csLen?_some _ _).mp hc
+    have hrest : r.toList.drop (x + n) = rest := by
+      rw [← List.drop_drop, hr, ← hsl]; simp
+    rw [hrest, hr]
+    constructor
+    · rintro ⟨ss, hss, e⟩
+      exact ⟨s :: ss, by intro t ht; rcases List.mem_cons.mp ht with rfl | h; exact hs; exact hss t h, by simp [e]⟩
+    · rintro ⟨ss, hss, e⟩
+      have hne : s ++ rest ≠ [] := by have := charStr_pos s hs; intro h; simp at h; rw [h.1] at this; simp at this
+      obtain ⟨s', ss', rfl, hs', e'⟩ := flatten_head charStr_pos hne hss e
+      have := charStr_prefix_unique hs hs' e'
+      subst this
+      exact ⟨ss', fun t ht => hss t (by simp [ht]), List.append_cancel_left e'⟩
+  | case3 x hx e hv =>
+    refine ⟨by simp, ?_⟩
+    simp only [reduceCtorEq, false_iff]
+    rintro ⟨ss, hss, e'⟩
+    have hc := vcs_err_iff _ _ hv
+    rw [toList_extract_from] at hc
+    have hne : r.toList.drop x ≠ [] := by simp; omega
+    obtain ⟨s', ss', rfl, hs', e''⟩ := flatten_head charStr_pos hne hss e'
+    have := (csLen?_some _ s'.length).mpr ⟨s', _, e'', hs', rfl⟩
+    rw [hc] at this; cases this
+  | case4 x hx hv => exact absurd hv (vcs_no_panic _)
+  | case5 x hx =>
+    refine ⟨by simp, ?_⟩
+    simp only [true_iff]
+    have : r.toList.drop x = [] := by simp; omega
+    exact ⟨[], by simp, by simp [this]⟩
+
+theorem validateAsTxt_iff (r : Bytes) :
+    validateAsTxt r = .ok () ↔
+      ∃ ss : List (List UInt8), ss ≠ [] ∧ (∀ s ∈ ss, CharStr s) ∧ r.toList = ss.flatten := by
+  unfold validateAsTxt
+  by_cases h0 : r.size = 0
+  · rw [if_pos h0]
+    simp only [reduceCtorEq, false_iff]
+    rintro ⟨ss, hne, hss, e⟩
+    cases ss with
+    | nil => exact hne rfl
+    | cons s ss' =>
+      have := charStr_pos s (hss s (by simp))
+      have hl := congrArg List.length e
+      simp at hl; omega
+  · rw [if_neg h0]
+    rw [(txtLoop_spec r 0 (by omega)).2]
+    simp only [List.drop_zero]
+    constructor
+    · rintro ⟨ss, hss, e⟩
+      refine ⟨ss, ?_, hss, e⟩
+      intro hnil; subst hnil
+      have hl := congrArg List.length e
+      simp only [Array.length_toList, List.flatten_nil, List.length_nil] at hl; omega
+    · rintro ⟨ss, _, hss, e⟩; exact ⟨ss, hss, e⟩
+
+
+/-! ### EDNS options -/
+
+def optLen? : List UInt8 → Option Nat
+  | _ :: _ :: l1 :: l2 :: rest =>
+    if l1.toNat * 256 + l2.toNat ≤ rest.length then some (l1.toNat * 256 + l2.toNat + 4) else none
+  | _ => none
+
+theorem getD_toList (b : Bytes) (i : Nat) : b.getD i 0 = b.toList.getD i 0 := by
+  simp [Array.getD, List.getD]
+  by_cases h : i < b.size <;> simp [h]
+
+set_option maxRecDepth 4000 in
+theorem vopt_eq (b : Bytes) : validateOption b =
+    match optLen? b.toList with
+    | some n => .ok n
+    | none => .err .Other := by
+  unfold validateOption be16
+  rw [getD_toList, getD_toList]
+  have hs : b.size = b.toList.length := by simp
+  rw [hs]
+  generalize b.toList = A
+  match A with
+  | [] => simp [optLen?]
+  | [_] => simp [optLen?]
+  | [_, _] => simp [optLen?]
+  | [_, _, _] => simp [optLen?]
+  | c1 :: c2 :: l1 :: l2 :: rest =>
+    simp only [optLen?, List.length_cons]
+    have : 4 ≤ rest.length + 1 + 1 + 1 + 1 := by omega
+    simp only [this, if_true, List.getD_cons_succ, List.getD_cons_zero]
+    generalize l1.toNat * 256 + l2.toNat = m
+    by_cases h : m ≤ rest.length
+    · have : rest.length + 1 + 1 + 1 + 1 ≥ m + 4 := by omega
+      simp [h, this]
+    · have : ¬ rest.length + 1 + 1 + 1 + 1 ≥ m + 4 := by omega
+      simp [h, this]
+
+theorem optLen?_some (A : List UInt8) (n : Nat) :
+    optLen? A = some n ↔ ∃ s rest, A = s ++ rest ∧ OptTLV s ∧ s.length = n := by
+  constructor
+  · intro h
+    match A, h with
+    | c1 :: c2 :: l1 :: l2 :: rest, h =>
+      simp only [optLen?] at h
+      split at h
+      · rename_i hl
+        cases h
+        refine ⟨c1 :: c2 :: l1 :: l2 :: rest.take (l1.toNat * 256 + l2.toNat), rest.drop (l1.toNat * 256 + l2.toNat),
+          by simp, ⟨c1, c2, l1, l2, _, rfl, by simp; omega⟩, by simp; omega⟩
+      · cases h
+  · rintro ⟨s, rest, rfl, ⟨c1, c2, l1, l2, data, rfl, hd⟩, hn⟩
+    simp only [List.cons_append, optLen?, List.length_append]
+    have : l1.toNat * 256 + l2.toNat ≤ data.length + rest.length := by omega
+    simp [this] at hn ⊢
+    omega
+
+theorem optLen?_pos (A : List UInt8) (n : Nat) (h : optLen? A = some n) : 0 < n ∧ n ≤ A.length := by
+  obtain ⟨s, rest, rfl, ⟨c1, c2, l1, l2, data, rfl, hd⟩, hn⟩ := (optLen?_some A n).mp h
+  simp at hn ⊢; omega
+
+theorem optTLV_prefix_unique {s s' x y : List UInt8} (h : OptTLV s) (h' : OptTLV s') (e : s ++ x = s' ++ y) :
+    s = s' := by
+  obtain ⟨c1, c2, l1, l2, data, rfl, hd⟩ := h
+  obtain ⟨c1', c2', l1', l2', data', rfl, hd'⟩ := h'
+  simp only [List.cons_append, List.cons.injEq] at e
+  obtain ⟨rfl, rfl, rfl, rfl, e2⟩ := e
+  have := (List.append_inj e2 (by omega)).1
+  rw [this]
+
+theorem optTLV_pos (s : List UInt8) (h : OptTLV s) : 0 < s.length := by
+  obtain ⟨c1, c2, l1, l2, data, rfl, _⟩ := h; simp
+
+theorem vopt_ok_iff (b : Bytes) (n : Nat) : validateOption b = .ok n ↔ optLen? b.toList = some n := by
+  rw [vopt_eq]; cases optLen? b.toList <;> simp
+
+theorem vopt_no_panic (b : Bytes) : validateOption b ≠ .panic := by
+  rw [vopt_eq]; cases optLen? b.toList <;> simp
+
+theorem vopt_err_iff (b : Bytes) (e : RErr) : validateOption b = .err e → optLen? b.toList = none := by
+  rw [vopt_eq]; cases optLen? b.toList <;> simp
+
+theorem optLoop_spec (r : Bytes) (off : Nat) (hoff : off ≤ r.size) :
+    optLoop r off ≠ .panic ∧
+    (optLoop r off = .ok () ↔ ∃ os : List (List UInt8), (∀ o ∈ os, OptTLV o) ∧ r.toList.drop off = os.flatten) := by
+  fun_induction optLoop r off with
+  | case1 x hx hv =>
+    have := optLen?_pos _ _ ((vopt_ok_iff _ _).mp hv)
+    omega
+  | case2 x hx n hv hn ih =>
+    have hc := (vopt_ok_iff _ _).mp hv
+    rw [toList_extract_from] at hc
+    obtain ⟨_, hle⟩ := optLen?_pos _ _ hc
+    simp only [List.length_drop, Array.length_toList] at hle
+    obtain ⟨ih1, ih2⟩ := ih (by omega)
+    refine ⟨ih1, ?_⟩
+    rw [ih2]
+    obtain ⟨s, rest, hr, hs, hsl⟩ := (optLen?_some _ _).mp hc
+    have hrest : r.toList.drop (x + n) = rest := by
+      rw [← List.drop_drop, hr, ← hsl]; simp
+    rw [hrest, hr]
+    constructor
+    · rintro ⟨ss, hss, e⟩
+      exact ⟨s :: ss, by intro t ht; rcases List.mem_cons.mp ht with rfl | h; exact hs; exact hss t h, by simp [e]⟩
+    · rintro ⟨ss, hss, e⟩
+      have hne : s ++ rest ≠ [] := by have := optTLV_pos s hs; intro h; simp at h; rw [h.1] at this; simp at this
+      obtain ⟨s', ss', rfl, hs', e'⟩ := flatten_head optTLV_pos hne hss e
+      have := optTLV_prefix_unique hs hs' e'
+      subst this
+      exact ⟨ss', fun t ht => hss t (by simp [ht]), List.append_cancel_left e'⟩
+  | case3 x hx e hv =>
+    refine ⟨by simp, ?_⟩
+    simp only [reduceCtorEq, false_iff]
+    rintro ⟨ss, hss, e'⟩
+    have hc := vopt_err_iff _ _ hv
+    rw [toList_extract_from] at hc
+    have hne : r.toList.drop x ≠ [] := by simp; omega
+    obtain ⟨s', ss', rfl, hs', e''⟩ := flatten_head optTLV_pos hne hss e'
+    have := (optLen?_some _ s'.length).mpr ⟨s', _, e'', hs', rfl⟩
+    rw [hc] at this; cases this
+  | case4 x hx hv => exact absurd hv (vopt_no_panic _)
+  | case5 x hx =>
+    refine ⟨by simp, ?_⟩
+    simp only [true_iff]
+    have : r.toList.drop x = [] := by simp; omega
+    exact ⟨[], by simp, by simp [this]⟩
+
+theorem validateAsOpt_iff (r : Bytes) :
+    validateAsOpt r = .ok () ↔ ∃ os : List (List UInt8), (∀ o ∈ os, OptTLV o) ∧ r.toList = os.flatten := by
+  unfold validateAsOpt
+  rw [(optLoop_spec r 0 (by omega)).2]
+  simp
+
+section
+set_option maxRecDepth 4000
+
+/-! ### TSIG -/
+
+/-- everything after the algorithm name (RFC 8945 §4.2) -/
+def TsigTail (x : List UInt8) : Prop :=
+  ∃ time fudge m1 m2 mac oid err o1 o2 other,
+    time.length = 6 ∧ fudge.length = 2 ∧ mac.length = m1.toNat * 256 + m2.toNat ∧
+    oid.length = 2 ∧ err.length = 2 ∧ other.length = o1.toNat * 256 + o2.toNat ∧
+    x = time ++ fudge ++ [m1, m2] ++ mac ++ oid ++ err ++ [o1, o2] ++ other
+
+theorem tsigRdata_iff (r : List UInt8) :
+    TsigRdata r ↔ ∃ alg rest, r = alg ++ rest ∧ WireName alg ∧ TsigTail rest := by
+  constructor
+  · rintro ⟨alg, time, fudge, m1, m2, mac, oid, err, o1, o2, other, hw, h1, h2, h3, h4, h5, h6, e⟩
+    exact ⟨alg, _, by rw [e]; simp, hw, time, fudge, m1, m2, mac, oid, err, o1, o2, other, h1, h2, h3, h4, h5, h6, rfl⟩
+  · rintro ⟨alg, rest, e, hw, time, fudge, m1, m2, mac, oid, err, o1, o2, other, h1, h2, h3, h4, h5, h6, e2⟩
+    exact ⟨alg, time, fudge, m1, m2, mac, oid, err, o1, o2, other, hw, h1, h2, h3, h4, h5, h6, by rw [e, e2]; simp⟩
+
+/-- the arithmetic the validator checks on the tail -/
+def tsigTailOk (x : List UInt8) : Prop :=
+  10 ≤ x.length ∧
+  16 + ((x.getD 8 0).toNat * 256 + (x.getD 9 0).toNat) ≤ x.length ∧
+  x.length = 16 + ((x.getD 8 0).toNat * 256 + (x.getD 9 0).toNat) +
+    ((x.getD (14 + ((x.getD 8 0).toNat * 256 + (x.getD 9 0).toNat)) 0).toNat * 256 +
+     (x.getD (15 + ((x.getD 8 0).toNat * 256 + (x.getD 9 0).toNat)) 0).toNat)
+
+theorem getD_app (a b : List UInt8) (i : Nat) (d : UInt8) : (a ++ b).getD (a.length + i) d = b.getD i d := by
+  simp [List.getD, List.getElem?_append_right]
+
+theorem getD_take_drop (x : List UInt8) (i : Nat) (h : i < x.length) :
+    x.drop i = x.getD i 0 :: x.drop (i + 1) := by
+  rw [List.drop_eq_getElem_cons h]
+  simp [List.getD, h]
+
+theorem tsigTail_iff (x : List UInt8) : TsigTail x ↔ tsigTailOk x := by
+  constructor
+  · rintro ⟨time, fudge, m1, m2, mac, oid, err, o1, o2, other, h1, h2, h3, h4, h5, h6, e⟩
+    have e8 : x.getD 8 0 = m1 := by
+      have := getD_app (time ++ fudge) ([m1, m2] ++ mac ++ oid ++ err ++ [o1, o2] ++ other) 0 0
+      simp only [List.length_append, h1, h2] at this
+      rw [e]; simpa using this
+    have e9 : x.getD 9 0 = m2 := by
+      have := getD_app (time ++ fudge) ([m1, m2] ++ mac ++ oid ++ err ++ [o1, o2] ++ other) 1 0
+      simp only [List.length_append, h1, h2] at this
+      rw [e]; simpa using this
+    have e14 : x.getD (14 + mac.length) 0 = o1 := by
+      have := getD_app (time ++ fudge ++ [m1, m2] ++ mac ++ oid ++ err) ([o1, o2] ++ other) 0 0
+      simp only [List.length_append, h1, h2, h4, h5, List.length_cons, List.length_nil] at this
+      rw [e]
+      have e' : 14 + mac.length = 6 + 2 + (0 + 1 + 1) + mac.length + 2 + 2 + 0 := by omega
+      rw [e']; simpa using this
+    have e15 : x.getD (15 + mac.length) 0 = o2 := by
+      have := getD_app (time ++ fudge ++ [m1, m2] ++ mac ++ oid ++ err) ([o1, o2] ++ other) 1 0
+      simp only [List.length_append, h1, h2, h4, h5, List.length_cons, List.length_nil] at this
+      rw [e]
+      have e' : 15 + mac.length = 6 + 2 + (0 + 1 + 1) + mac.length + 2 + 2 + 1 := by omega
+      rw [e']; simpa using this
+    have hl : x.length = 16 + mac.length + other.length := by
+      rw [e]; simp; omega
+    unfold tsigTailOk
+    rw [e8, e9, ← h3, e14, e15, ← h6]
+    omega
+  · rintro ⟨h10, h16, hlen⟩
+    generalize hm : (x.getD 8 0).toNat * 256 + (x.getD 9 0).toNat = mac at h16 hlen
+    refine ⟨x.take 6, (x.drop 6).take 2, x.getD 8 0, x.getD 9 0, (x.drop 10).take mac,
+      (x.drop (10 + mac)).take 2, (x.drop (12 + mac)).take 2, x.getD (14 + mac) 0, x.getD (15 + mac) 0,
+      x.drop (16 + mac), by simp; omega, by simp; omega,
+      by simp only [List.length_take, List.length_drop]; omega, by simp; omega, by simp; omega,
+      by simp only [List.length_take, List.length_drop]; omega, ?_⟩
+    have s1 : x = x.take 6 ++ x.drop 6 := (List.take_append_drop 6 x).symm
+    have s2 : x.drop 6 = (x.drop 6).take 2 ++ x.drop 8 := by
+      have := (List.take_append_drop 2 (x.drop 6)).symm; simpa using this
+    have s3 : x.drop 8 = x.getD 8 0 :: x.drop 9 := getD_take_drop x 8 (by omega)
+    have s4 : x.drop 9 = x.getD 9 0 :: x.drop 10 := getD_take_drop x 9 (by omega)
+    have s5 : x.drop 10 = (x.drop 10).take mac ++ x.drop (10 + mac) := by
+      have := (List.take_append_drop mac (x.drop 10)).symm; simpa [Nat.add_comm] using this
+    have s6 : x.drop (10 + mac) = (x.drop (10 + mac)).take 2 ++ x.drop (12 + mac) := by
+      have := (List.take_append_drop 2 (x.drop (10 + mac))).symm
+      rw [List.drop_drop] at this
+      have e : 10 + mac + 2 = 12 + mac := by omega
+      rw [e] at this; exact this
+    have s7 : x.drop (12 + mac) = (x.drop (12 + mac)).take 2 ++ x.drop (14 + mac) := by
+      have := (List.take_append_drop 2 (x.drop (12 + mac))).symm
+      rw [List.drop_drop] at this
+      have e : 12 + mac + 2 = 14 + mac := by omega
+      rw [e] at this; exact this
+    have s8 : x.drop (14 + mac) = x.getD (14 + mac) 0 :: x.drop (15 + mac) := by
+      have := getD_take_drop x (14 + mac) (by omega)
+      have e : 14 + mac + 1 = 15 + mac := by omega
+      rw [e] at this; exact this
+    have s9 : x.drop (15 + mac) = x.getD (15 + mac) 0 :: x.drop (16 + mac) := by
+      have := getD_take_drop x (15 + mac) (by omega)
+      have e : 15 + mac + 1 = 16 + mac := by omega
+      rw [e] at this; exact this
+    conv => lhs; rw [s1, s2, s3, s4, s5, s6, s7, s8, s9]
+    simp
+
+
+theorem getD_drop (A : List UInt8) (k i : Nat) : (A.drop k).getD i 0 = A.getD (k + i) 0 := by
+  simp [List.getD]
+
+theorem wireName_prefix_unique {w w' x y : List UInt8} (h : WireName w) (h' : WireName w') (e : w ++ x = w' ++ y) :
+    w = w' ∧ x = y := by
+  obtain ⟨n, hl, _⟩ := (wireName_iff w).mp h
+  obtain ⟨n', hl', _⟩ := (wireName_iff w').mp h'
+  obtain ⟨a, _, c⟩ := lname_prefix_unique hl hl' e
+  exact ⟨a, c⟩
+
+theorem validateAsTsig_iff (r : Bytes) : validateAsTsig r = .ok () ↔ TsigRdata r.toList := by
+  rw [tsigRdata_iff]
+  unfold validateAsTsig
+  cases h1 : validateUncompressed r false with
+  | ok k =>
+    obtain ⟨hk, _⟩ := validateU_le r k h1
+    obtain ⟨w, rest, hr, hw, hwl⟩ := (validateU_false_iff r k).mp h1
+    have hrest : r.toList.drop k = rest := by rw [hr, ← hwl]; simp
+    have key : (validateAsTsig r = .ok ()) ↔ tsigTailOk (r.toList.drop k) := by
+      unfold validateAsTsig tsigTailOk
+      simp only [h1, liftName, Out.mapErr, Out.bind_ok, be16, getD_toList, getD_drop, List.length_drop, Array.length_toList]
+      have a1 : k + 8 + 1 = k + 9 := by omega
+      rw [a1]
+      generalize hm : (r.toList.getD (k + 8) 0).toNat * 256 + (r.toList.getD (k + 9) 0).toNat = mac
+      have a2 : k + mac + 14 = k + (14 + mac) := by omega
+      have a3 : k + (14 + mac) + 1 = k + (15 + mac) := by omega
+      rw [a2, a3]
+      generalize ho : (r.toList.getD (k + (14 + mac)) 0).toNat * 256 + (r.toList.getD (k + (15 + mac)) 0).toNat = other
+      by_cases c1 : k + 10 ≤ r.size
+      · rw [if_pos c1]
+        by_cases c2 : k + mac + 16 ≤ r.size
+        · rw [if_pos c2]
+          by_cases c3 : k + mac + other + 16 = r.size
+          · rw [if_pos c3]; simp only [true_iff]; omega
+          · rw [if_neg c3]; simp only [reduceCtorEq, false_iff]; omega
+        · rw [if_neg c2]; simp only [reduceCtorEq, false_iff]; omega
+      · rw [if_neg c1]; simp only [reduceCtorEq, false_iff]; omega
+    have key' := key
+    unfold validateAsTsig at key'
+    rw [h1] at key'
+    rw [key', ← tsigTail_iff, hrest]
+    constructor
+    · intro ht; exact ⟨w, rest, hr, hw, ht⟩
+    · rintro ⟨alg, rest', e, hw', ht⟩
+      rw [hr] at e
+      obtain ⟨_, e2⟩ := wireName_prefix_unique hw hw' e
+      rw [e2]; exact ht
+  | err e =>
+    simp only [liftName, Out.mapErr, Out.bind_err, reduceCtorEq, false_iff]
+    rintro ⟨alg, rest, e', hw, _⟩
+    have := (validateU_false_iff r alg.length).mpr ⟨alg, rest, e', hw, rfl⟩
+    rw [h1] at this; cases this
+  | panic => exact absurd h1 (validateU_no_panic r false)
+
+end
+
+theorem isSome_split_iff (l : List Field) (r : List UInt8) :
+    (split? l r).isSome ↔ ∃ fs, Splits l r fs := by
+  constructor
+  · intro h
+    cases hs : split? l r with
+    | none => rw [hs] at h; cases h
+    | some fs => exact ⟨fs, (split?_iff l r fs).mp hs⟩
+  · rintro ⟨fs, h⟩
+    rw [(split?_iff l r fs).mpr h]; rfl
+
+/-- **validation = the RFC grammar**, format by format -/
+theorem validateFmt_iff (f : Fmt) (r : Bytes) : validateFmt f r = .ok () ↔ FmtSpec f r.toList := by
+  cases f <;> simp only [validateFmt, FmtSpec]
+  · rw [validateName_split, isSome_split_iff]
+  · simp [validateAsInA]
+  · rw [validateAsChA_split, isSome_split_iff]
+  · rw [validateAsSoa_split, isSome_split_iff]
+  · simp [validateAsInWks]
+  · exact validateAsHinfo_iff r
+  · rw [validateAsMinfo_split, isSome_split_iff]
+  · rw [validateAsMx_split, isSome_split_iff]
+  · exact validateAsTxt_iff r
+  · simp [validateAsInAaaa]
+  · rw [validateAsInSrv_split, isSome_split_iff]
+  · exact validateAsOpt_iff r
+  · exact validateAsTsig_iff r
+
+theorem liftName_validateU_no_panic (b : Bytes) (u : Bool) : liftName (validateUncompressed b u) ≠ .panic := by
+  have := validateU_no_panic b u
+  cases h : validateUncompressed b u <;> simp_all [liftName, Out.mapErr]
+
+theorem validateFmt_no_panic (f : Fmt) (r : Bytes) : validateFmt f r ≠ .panic := by
+  cases f <;> simp only [validateFmt]
+  · -- name
+    unfold validateName
+    have := liftName_validateU_no_panic r true
+    cases h : liftName (validateUncompressed r true) <;> simp_all
+  · unfold validateAsInA; split <;> simp
+  · unfold validateAsChA
+    have := liftName_validateU_no_panic r false
+    cases h : liftName (validateUncompressed r false) <;> simp_all
+    split <;> simp
+  · unfold validateAsSoa
+    have := validateU_no_panic r false
+    cases h : validateUncompressed r false with
+    | ok k =>
+      obtain ⟨hk, _⟩ := validateU_le r k h
+      simp only [liftName, Out.mapErr, Out.bind_ok, sliceFrom_ok r k hk]
+      have := validateU_no_panic (r.extract k r.size) false
+      cases h2 : validateUncompressed (r.extract k r.size) false <;> simp_all
+      split <;> simp
+    | err e => simp [liftName, Out.mapErr]
+    | panic => exact absurd h this
+  · unfold validateAsInWks; split <;> simp
+  · unfold validateAsHinfo
+    rw [vcs_eq]
+    cases h1 : csLen? r.toList with
+    | none => simp
+    | some n =>
+      obtain ⟨_, hn⟩ := csLen?_pos _ _ h1
+      simp only [Array.length_toList] at hn
+      simp only [Out.bind_ok, sliceFrom_ok r n hn]
+      rw [vcs_eq]
+      cases csLen? (r.extract n r.size).toList <;> simp
+      split <;> simp
+  · unfold validateAsMinfo
+    have := validateU_no_panic r false
+    cases h : validateUncompressed r false with
+    | ok k =>
+      obtain ⟨hk, _⟩ := validateU_le r k h
+      simp only [liftName, Out.mapErr, Out.bind_ok, sliceFrom_ok r k hk]
+      have := validateU_no_panic (r.extract k r.size) true
+      cases h2 : validateUncompressed (r.extract k r.size) true <;> simp_all
+    | err e => simp [liftName, Out.mapErr]
+    | panic => exact absurd h this
+  · unfold validateAsMx
+    split
+    · have := liftName_validateU_no_panic (r.extract 2 r.size) true
+      cases h : liftName (validateUncompressed (r.extract 2 r.size) true) <;> simp_all
+    · simp
+  · unfold validateAsTxt
+    split
+    · simp
+    · exact (txtLoop_spec r 0 (by omega)).1
+  · unfold validateAsInAaaa; split <;> simp
+  · unfold validateAsInSrv
+    split
+    · have := liftName_validateU_no_panic (r.extract 6 r.size) true
+      cases h : liftName (validateUncompressed (r.extract 6 r.size) true) <;> simp_all
+    · simp
+  · exact (optLoop_spec r 0 (by omega)).1
+  · unfold validateAsTsig
+    have := liftName_validateU_no_panic r false
+    cases h : liftName (validateUncompressed r false) <;> simp_all
+    repeat' split
+    all_goals simp
+  · simp
+
+
 end QV.Rdata
